@@ -141,6 +141,12 @@ func genCorpus(shape string, rng *vh.RNG) *corpus {
 		c.crosses["tokens"] = true
 	default:
 		n = 100
+		if strings.HasPrefix(shape, "docs") { // docs<N>: exactly N documents (block-capacity boundaries)
+			if v, err := strconv.Atoi(strings.TrimPrefix(shape, "docs")); err == nil {
+				n = v
+				c.crosses["ids"] = n >= 4094
+			}
+		}
 	}
 	c.step = 1000
 	perm := rng.Perm(n)
@@ -179,6 +185,16 @@ func genCorpus(shape string, rng *vh.RNG) *corpus {
 			if i%2 == 0 {
 				toks = append(toks, "par:even")
 			}
+			// posting counts at the LID block capacity: cap-1, cap, cap+1 in one field, exactly cap alone in another
+			if i < 65535 {
+				toks = append(toks, "cnt:a")
+			}
+			if i < 65536 {
+				toks = append(toks, "cnt:b", "full:one")
+			}
+			if i < 65537 {
+				toks = append(toks, "cnt:c")
+			}
 		}
 		if shape == "hugedict" {
 			toks = append(toks, fmt.Sprintf("uid64:%s%08d", strings.Repeat("0123456789abcdef", 4), (i*7919)%100000000))
@@ -190,7 +206,7 @@ func genCorpus(shape string, rng *vh.RNG) *corpus {
 		}
 		if uniq > 0 {
 			u := fmt.Sprintf("u%0*d", uniq-1, (i*7919)%1000000)
-			toks = append(toks, "uid:"+u, fmt.Sprintf("num:%d", 1000000+i)) // num: > 16 KiB dictionary of numbers growing with time
+			toks = append(toks, "uid:"+u, fmt.Sprintf("num:%d", 1000000+i))                                      // num: > 16 KiB dictionary of numbers growing with time
 			toks = append(toks, fmt.Sprintf("long:%s%06d", strings.Repeat("commonprefix", 7), (i*7919)%1000000)) // 90-byte tokens, 84-byte common prefix
 			extra = fmt.Sprintf(`,"uid":"%s"`, u)
 		}
@@ -217,7 +233,7 @@ func genCorpus(shape string, rng *vh.RNG) *corpus {
 		"pod:p1*", "pod:*7", "message:w*", "service:nosuch", "level:error AND service:nosuch", "_all_:*", "size:17",
 	}
 	if shape == "lids64k" {
-		c.queries = append(c.queries, "grp:all", "half:lo", "half:hi", "par:even", "grp:all AND half:hi", "half:lo OR par:even", "grp:all AND NOT par:even")
+		c.queries = append(c.queries, "cnt:a", "cnt:b", "cnt:c", "full:one", "cnt:a AND NOT cnt:b", "cnt:c AND NOT cnt:b", "grp:all", "half:lo", "half:hi", "par:even", "grp:all AND half:hi", "half:lo OR par:even", "grp:all AND NOT par:even")
 	}
 	if shape == "hugedict" {
 		for k := 0; k < 30; k++ {
@@ -833,7 +849,7 @@ func buildModelQueries(active *frac.Active, rng *vh.RNG, cor *corpus) []modelQue
 	st := frac.VerifActiveSnapshot(active)
 	type tokRef struct {
 		field, val string
-		tid      int
+		tid        int
 	}
 	var toks []tokRef
 	var fparts []string
@@ -899,8 +915,8 @@ func buildModelQueries(active *frac.Active, rng *vh.RNG, cor *corpus) []modelQue
 // shared buffers and caches must not leak from one seal into the tables of another fraction.
 func runSeqCaseInProcess(c sysCase, dir string) *sysResult {
 	res := &sysResult{Tags: map[string]int{}, Stats: map[string]string{}}
-	runtime.GOMAXPROCS(1)      // make sync.Pool reuse between the seals deterministic
-	debug.SetGCPercent(-1)     // a GC cycle would empty the pools
+	runtime.GOMAXPROCS(1)  // make sync.Pool reuse between the seals deterministic
+	debug.SetGCPercent(-1) // a GC cycle would empty the pools
 	rng := vh.NewRNG(c.Seed)
 	indexer := frac.NewActiveIndexer(2, 2)
 	indexer.Start()
@@ -1184,10 +1200,11 @@ func runSystemOracle(o vh.Opts, rng *vh.RNG, rep *vh.Report, tmp string) {
 	}
 	cases = append(cases, sysCase{Shape: "ids2", Seed: int64(rng.U64() >> 2), SkipSort: false, Zstd: 1, DocBlock: 4096, CacheKB: 8, OnlyReq: -1})
 	if o.Thorough() {
-		for i, sh := range []string{"ids-exact", "ids-exact1", "bigdict", "exactdict", "lids64k", "ids2", "bigdict", "manyfields", "manyfields", "hugedict", "tinybulks", "tinybulks", "tinybulks"} {
+		for i, sh := range []string{"docs4094", "docs4095", "docs4096", "docs4097", "docs8190", "docs12287", "ids-exact", "ids-exact1", "bigdict", "exactdict", "lids64k", "ids2", "bigdict", "manyfields", "manyfields", "hugedict", "tinybulks", "tinybulks", "tinybulks"} {
 			cases = append(cases, sysCase{Shape: sh, Seed: int64(rng.U64() >> 2), SkipSort: i%2 == 0, Zstd: zs[i%4], DocBlock: []int{2048, 0, 512}[i%3], CacheKB: []int{4, 16, 1}[i%3], OnlyReq: -1})
 		}
 	} else {
+		cases = append(cases, sysCase{Shape: "docs4095", Seed: int64(rng.U64() >> 2), SkipSort: true, Zstd: 1, DocBlock: 0, CacheKB: 4, OnlyReq: -1})
 		cases = append(cases, sysCase{Shape: "tinybulks", Seed: int64(rng.U64() >> 2), SkipSort: true, Zstd: 1, DocBlock: 0, CacheKB: 2, OnlyReq: -1},
 			sysCase{Shape: "tinybulks", Seed: int64(rng.U64() >> 2), SkipSort: false, Zstd: 3, DocBlock: 64, CacheKB: 1, OnlyReq: -1})
 		for i, sh := range []string{"bigdict", "lids64k", "ids-exact", "exactdict", "manyfields", "hugedict"} {
